@@ -27,6 +27,8 @@ let run lines =
   | "spec12" -> Model.run_spec12 lines
   | "model04" -> Model.run_model04 lines
   | "spec04" -> Model.run_spec04 lines
+  | "conc" -> Model.run_conc_script lines
+  | "raft" -> Model.run_raft lines
   | m -> failwith ("unknown mode " ^ m)
 
 let flush_script acc =
